@@ -4,7 +4,8 @@
 
   Reading guide. A transition runs against an arbitrary event trace (one event per datagram, in the
   order the datagrams are sent): any responses, any number of polls, lost frames, the deadline of
-  the transition timeout. `Reports d p` = the status datagram `p` decodes to state nibble `d`.
+  the transition timeout. `Reports d p` = the status datagram `p` came back with working counter 1
+  and decodes to state nibble `d` without error indication.
   Every function also returns the frames it sent. Hypothesis `m = .checked ∨ CHECK_SIZE ≤ pduLen`:
   a debug build, or frames with room for one 14-byte status check (any real frame: ≥ 28+14 bytes).
 -/
@@ -190,14 +191,21 @@ theorem wait_fuel_sufficient (m : Mode) (pduLen desired : Nat) (members : List N
     waitLoop m pduLen desired members fuel tr = waitForState m pduLen desired members tr :=
   waitLoop_fuel m pduLen desired members fuel (tr.length + 1) tr h (Nat.lt_succ_self _)
 
-/-- KNOWN GAP (as coded): `is_state` compares the state nibble only. A member that reports the
-    requested state WITH the error indication set (0x14 = SAFE-OP + error, e.g. after falling back
-    from OP) counts as "there", so `into_safe_op` returns Ok while a member signals an error.
-    (`MainDevice::wait_for_state` does look at the bit.) -/
-theorem error_indication_ignored_counterexample :
+/-- A status datagram (answered by one device) with the error-indication bit ends `is_state` —
+    and with it the transition — in `Err(StateTransition)`, whatever state nibble it carries; this is
+    what `MainDevice::wait_for_state` does too. -/
+theorem error_indication_is_error (desired : Nat) (p : Pdu) (c : AlControl) (ps : List Pdu)
+    (hw : p.wkc = 1) (hu : unpackAlControl p.data = .ok c) (he : c.error = true) :
+    checkStates desired (p :: ps) = .error .stateTransition := by
+  simp [checkStates, Pdu.checkWkc, hw, hu, he]
+
+/-- The former witness of the gap (members in SAFE-OP, the last one with the error indication set,
+    0x14): `into_safe_op` used to return Ok, now it is `Err(StateTransition)`. -/
+theorem error_indication_former_witness :
     transitionTo .checked 100 4 [0x1000, 0x1001]
       [.resp ⟨[4, 0], 1⟩, .resp ⟨[4, 0], 1⟩, .resp ⟨[0x04, 0], 1⟩, .resp ⟨[0x14, 0], 1⟩]
-    = (.ok (), [], [[.fpwr 0x1000 0x120 4], [.fpwr 0x1001 0x120 4], [.fprd 0x1000 0x130, .fprd 0x1001 0x130]]) := by
+    = (.error .stateTransition, [],
+        [[.fpwr 0x1000 0x120 4], [.fpwr 0x1001 0x120 4], [.fprd 0x1000 0x130, .fprd 0x1001 0x130]]) := by
   decide
 
 /-! ### `MainDevice::wait_for_state` -/
